@@ -136,3 +136,41 @@ pub proof fn lemma_observe_wf<T: Copy, P: PlonkyPermutation<T>>(st: ChSt<T>, e: 
 {
     P::ax_perm();
 }
+
+// ---- the (non-duplex) overwrite-mode hashing sponge of hash_n_to_m_no_pad ----
+pub open spec fn sp_absorb_chunks<T: Copy, P: PlonkyPermutation<T>>(st: Seq<T>, inputs: Seq<T>, k: nat) -> Seq<T>
+    decreases k,
+{
+    if k == 0 { st } else {
+        let prev = sp_absorb_chunks::<T, P>(st, inputs, (k - 1) as nat);
+        let lo = (k - 1) * (P::RATE as int);
+        let hi = if k * (P::RATE as int) <= inputs.len() { k * (P::RATE as int) } else { inputs.len() as int };
+        let chunk = inputs.subrange(lo, hi);
+        P::spec_permute(chunk + prev.subrange(chunk.len() as int, P::WIDTH as int))
+    }
+}
+
+pub open spec fn sp_squeeze<T: Copy, P: PlonkyPermutation<T>>(st: Seq<T>, n: nat) -> Seq<T>
+    decreases n,
+{
+    if n == 0 || P::RATE == 0 { Seq::empty() } else if n <= P::RATE { st.subrange(0, n as int) } else {
+        st.subrange(0, P::RATE as int) + sp_squeeze::<T, P>(P::spec_permute(st), (n - P::RATE) as nat)
+    }
+}
+
+pub open spec fn spec_num_chunks(len: int, k: int) -> int {
+    if len % k == 0 { len / k } else { len / k + 1 }
+}
+
+pub proof fn lemma_squeeze_len<T: Copy, P: PlonkyPermutation<T>>(st: Seq<T>, n: nat)
+    requires
+        st.len() == P::WIDTH,
+    ensures
+        sp_squeeze::<T, P>(st, n).len() == n,
+    decreases n,
+{
+    P::ax_perm();
+    if n > P::RATE {
+        lemma_squeeze_len::<T, P>(P::spec_permute(st), (n - P::RATE) as nat);
+    }
+}
